@@ -1286,6 +1286,525 @@ theorem sameParent_eq (t : Tree) (a b : Nat) (hn : t.leafNums.Nodup) (p : Tree)
 
 theorem sameParent_comm (t : Tree) (a b : Nat) : sameParent t a b = sameParent t b a := by
   unfold sameParent
-  exact Bool.eq_iff_iff.2 (by simp [eq_comm])
+  rw [Bool.eq_iff_iff]
+  simp only [beq_iff_eq]
+  exact eq_comm
+
+/-! ### post-condition of `punctuationVerylow` -/
+
+theorem isPunctWord_node (f : Fields) (ks ks' : List Tree) :
+    isPunctWord (node f ks) = isPunctWord (node f ks') := rfl
+
+theorem allPunct_removeLeafL (c : Nat) : (ks : List Tree) → ks.all isPunctWord = true →
+    (removeLeafL c ks).all isPunctWord = true
+  | [], _ => by simp [removeLeafL]
+  | .leaf n f :: ts, h => by
+    simp only [List.all_cons, Bool.and_eq_true] at h
+    by_cases hn : n = c
+    · simp [removeLeafL, hn, h.2]
+    · simp [removeLeafL, hn, h.1, allPunct_removeLeafL c ts h.2]
+  | .node f ks :: ts, h => by
+    simp only [List.all_cons, Bool.and_eq_true] at h
+    simp only [removeLeafL, List.all_cons, Bool.and_eq_true]
+    exact ⟨(isPunctWord_node f _ ks).trans h.1, allPunct_removeLeafL c ts h.2⟩
+
+theorem isPunctWord_appendBeside (j : Nat) (x t : Tree) :
+    isPunctWord (appendBeside j x t) = isPunctWord t := by
+  unfold isPunctWord
+  rw [appendBeside_fields]
+
+theorem allPunct_appendBesideL (j : Nat) (x : Tree) (ks : List Tree) :
+    (appendBesideL j x ks).all isPunctWord = ks.all isPunctWord := by
+  simp [appendBesideL_eq_map, List.all_map, Function.comp_def, isPunctWord_appendBeside]
+
+/-- the parent of another token after a move -/
+theorem parentOfLeaf_moveLeafBeside (cur : Tree) (hn : cur.leafNums.Nodup) (hnode : cur.isLeaf = false)
+    (k i j : Nat) (hki : k ≠ i) (g : Fields) (hl : cur.findLeaf i = some (leaf i g)) (p : Tree)
+    (hp : parentOfLeaf k cur = some p) :
+    parentOfLeaf k (moveLeafBeside cur i j) = some (appendBeside j (leaf i g) (removeLeaf i p)) := by
+  have hn' : (removeLeaf i cur).leafNums.Nodup := by
+    rw [removeLeaf_leafNums i cur hnode hn]; exact hn.sublist List.filter_sublist
+  simp only [moveLeafBeside, hl]
+  rw [parentOfLeaf_appendBeside k j i g (fun e => hki e.symm) _ hn',
+    parentOfLeaf_removeLeaf k i hki cur hn, hp]
+  rfl
+
+/-- the children of a constituent after a move: direct tokens other than the moved one stay, and
+    an all-punctuation constituent stays all punctuation when the moved token is punctuation -/
+theorem kids_after_move (i j : Nat) (g : Fields) (f : Fields) (ks : List Tree) :
+    ∃ ks', appendBeside j (leaf i g) (removeLeaf i (node f ks)) = node f ks' ∧
+      (∀ b, b ≠ i → hasKid b ks = true → hasKid b ks' = true) ∧
+      (isPunctWord (leaf i g) = true → ks.all isPunctWord = true → ks'.all isPunctWord = true) := by
+  simp only [removeLeaf, appendBeside]
+  split
+  · refine ⟨_, rfl, ?_, ?_⟩
+    · intro b hb h
+      rw [hasKid_append_leaf, hasKid_removeLeafL b i hb, h]; rfl
+    · intro h1 h2
+      rw [List.all_append, allPunct_removeLeafL i ks h2]
+      simp [h1]
+  · refine ⟨_, rfl, ?_, ?_⟩
+    · intro b hb h
+      rw [hasKid_appendBesideL, hasKid_removeLeafL b i hb, h]
+    · intro _ h2
+      rw [allPunct_appendBesideL, allPunct_removeLeafL i ks h2]
+
+/-- post-condition of `punctuationVerylow` for the token `k` -/
+def vPost (cur : Tree) (k : Nat) : Prop := (sameParent cur k (k - 1) || parentAllPunct cur k) = true
+
+/-- what is known about a candidate of `punctuationVerylow` -/
+structure VCand (t : Tree) (i : Nat) : Prop where
+  two : 2 ≤ i
+  mem : i ∈ t.leafNums
+  memPred : i - 1 ∈ t.leafNums
+  punct : ∃ l, t.findLeaf i = some l ∧ isPunctWord l = true
+
+theorem verylowStep_inv' {t cur : Tree} (h : Inv t cur) (hn : t.leafNums.Nodup) (i : Nat)
+    (hc : VCand t i) : Inv t (verylowStep cur i) :=
+  verylowStep_inv h hn i hc.mem hc.memPred hc.two hc.punct
+
+theorem verylowStep_post_preserved {t cur : Tree} (h : Inv t cur) (hn : t.leafNums.Nodup) (i : Nat)
+    (hc : VCand t i) (k : Nat) (hk : k ∈ t.leafNums) (hki : k ≠ i) (hki' : k - 1 ≠ i)
+    (hpost : vPost cur k) : vPost (verylowStep cur i) k := by
+  have hinv := verylowStep_inv' h hn i hc
+  unfold verylowStep at hinv ⊢
+  split
+  · exact hpost
+  · rename_i h1
+    rw [if_neg h1] at hinv
+    split
+    · exact hpost
+    · rename_i h2
+      rw [if_neg h2] at hinv
+      obtain ⟨l, hl, hpl⟩ := hc.punct
+      obtain ⟨g, rfl⟩ := findLeaf_isLeaf t i l hl
+      have hcl : cur.findLeaf i = some (leaf i g) := by rw [h.findLeaf hn]; exact hl
+      obtain ⟨p, hp⟩ := parentOfLeaf_isSome k cur h.isNode ((h.mem k).2 hk)
+      obtain ⟨_, f, ks, rfl, _⟩ := parentOfLeaf_spec k cur p hp
+      have hp' := parentOfLeaf_moveLeafBeside cur (h.nodup hn) h.isNode k i (i - 1) hki g hcl _ hp
+      obtain ⟨ks', e, hk1, hk2⟩ := kids_after_move i (i - 1) g f ks
+      rw [e] at hp'
+      unfold vPost at hpost ⊢
+      rw [sameParent_eq cur k (k - 1) (h.nodup hn) _ hp] at hpost
+      rw [sameParent_eq _ k (k - 1) (hinv.nodup hn) _ hp']
+      simp only [parentAllPunct, hp, kids_node] at hpost
+      simp only [parentAllPunct, hp', kids_node]
+      rw [Bool.or_eq_true] at hpost ⊢
+      rcases hpost with hs | ha
+      · exact Or.inl (hk1 _ hki' hs)
+      · exact Or.inr (hk2 hpl ha)
+
+theorem verylowStep_post_self {t cur : Tree} (h : Inv t cur) (hn : t.leafNums.Nodup) (i : Nat)
+    (hc : VCand t i) : vPost (verylowStep cur i) i := by
+  have hinv := verylowStep_inv' h hn i hc
+  unfold verylowStep at hinv ⊢
+  split
+  · rename_i h1; unfold vPost; rw [h1, Bool.or_true]
+  · rename_i h1
+    rw [if_neg h1] at hinv
+    split
+    · rename_i h2; unfold vPost; rw [h2, Bool.true_or]
+    · rename_i h2
+      rw [if_neg h2] at hinv
+      obtain ⟨l, hl, hpl⟩ := hc.punct
+      obtain ⟨g, rfl⟩ := findLeaf_isLeaf t i l hl
+      have hcl : cur.findLeaf i = some (leaf i g) := by rw [h.findLeaf hn]; exact hl
+      have hij : i ≠ i - 1 := by have := hc.two; omega
+      obtain ⟨p, hp⟩ := parentOfLeaf_isSome (i - 1) cur h.isNode ((h.mem _).2 hc.memPred)
+      have hcn := h.nodup hn
+      have hn' : (removeLeaf i cur).leafNums.Nodup := by
+        rw [removeLeaf_leafNums i cur h.isNode hcn]; exact hcn.sublist List.filter_sublist
+      have hp1 : parentOfLeaf (i - 1) (removeLeaf i cur) = some (removeLeaf i p) := by
+        rw [parentOfLeaf_removeLeaf (i - 1) i (fun e => hij e.symm) cur hcn, hp]; rfl
+      obtain ⟨f, ks1, _, hp2⟩ :=
+        parentOfLeaf_appendBeside_self (i - 1) i g hij _ _ hn' hp1
+      have hmv : moveLeafBeside cur i (i - 1) = appendBeside (i - 1) (leaf i g) (removeLeaf i cur) := by
+        simp only [moveLeafBeside, hcl]
+      unfold vPost
+      rw [sameParent_comm, sameParent_eq _ (i - 1) i (hinv.nodup hn) _ (by rw [hmv]; exact hp2)]
+      simp [hasKid]
+
+theorem verylow_fold_post {t : Tree} (hn : t.leafNums.Nodup) : ∀ (todo : List Nat) (cur : Tree),
+    Inv t cur → todo.Pairwise (· < ·) → (∀ i ∈ todo, VCand t i) →
+    (∀ k, k ∈ t.leafNums → (∀ i ∈ todo, k < i) → vPost cur k → vPost (todo.foldl verylowStep cur) k) ∧
+    (∀ i ∈ todo, vPost (todo.foldl verylowStep cur) i)
+  | [], cur, _, _, _ => ⟨fun _ _ _ h => h, fun i hi => by simp at hi⟩
+  | i :: rest, cur, hinv, hpw, hc => by
+    rw [List.pairwise_cons] at hpw
+    have hci := hc i List.mem_cons_self
+    have hinv1 := verylowStep_inv' hinv hn i hci
+    obtain ⟨ih1, ih2⟩ := verylow_fold_post hn rest (verylowStep cur i) hinv1 hpw.2
+      (fun j hj => hc j (List.mem_cons_of_mem _ hj))
+    simp only [List.foldl_cons]
+    refine ⟨?_, ?_⟩
+    · intro k hk hlt hpost
+      have hki := hlt i List.mem_cons_self
+      refine ih1 k hk (fun j hj => hlt j (List.mem_cons_of_mem _ hj)) ?_
+      exact verylowStep_post_preserved hinv hn i hci k hk (by omega) (by omega) hpost
+    · intro j hj
+      rcases List.mem_cons.1 hj with rfl | hj
+      · exact ih1 j hci.mem hpw.1 (verylowStep_post_self hinv hn j hci)
+      · exact ih2 j hj
+
+theorem verylow_post_all (t : Tree) (h : WF t = true) :
+    ∀ i ∈ verylowCands t, vPost (punctuationVerylow t) i := by
+  obtain ⟨hpw, hc⟩ := verylowCands_spec t h
+  exact (verylow_fold_post (WF_nodup t h) (verylowCands t) t (Inv.refl t h) hpw
+    (fun i hi => by obtain ⟨a, b, c, d⟩ := hc i hi; exact ⟨a, b, c, d⟩)).2
+
+/-! ### post-condition of `punctuationRoot` -/
+
+/-- post-condition of `punctuationRoot` for the token `k` -/
+def rPost (cur : Tree) (k : Nat) : Prop :=
+  (parentPathOfLeaf k cur == some [] || parentArity cur k == 1) = true
+
+def rootCands (t : Tree) : List Nat := (t.terminals.filter isPunctWord).map num
+
+theorem rootCands_spec (t : Tree) (h : WF t = true) :
+    (rootCands t).Nodup ∧ ∀ i ∈ rootCands t, i ∈ t.leafNums := by
+  have hs : (rootCands t).Sublist (yield t) := by
+    unfold rootCands yield
+    exact List.filter_sublist.map num
+  refine ⟨hs.nodup ?_, fun i hi => (mem_yield t i).1 (hs.subset hi)⟩
+  rw [WF_yield t h]
+  exact List.nodup_range'
+
+theorem rootStep_move_eq (f : Fields) (ks : List Tree) (i : Nat) (g : Fields) :
+    appendToRoot (removeLeaf i (node f ks)) (leaf i g) = node f (removeLeafL i ks ++ [leaf i g]) := by
+  simp [removeLeaf, appendToRoot]
+
+theorem singleton_kid (k : Nat) (ks : List Tree) (hk : hasKid k ks = true) (hlen : ks.length = 1) :
+    ∃ g, ks = [leaf k g] := by
+  obtain ⟨g, hg⟩ := (hasKid_iff k ks).1 hk
+  match ks, hlen, hg with
+  | [x], _, hg => exact ⟨g, by simpa using (List.mem_singleton.1 hg).symm⟩
+
+theorem rootStep_post_preserved {t cur : Tree} (h : Inv t cur) (hn : t.leafNums.Nodup) (i k : Nat)
+    (hki : k ≠ i) (hpost : rPost cur k) : rPost (rootStep cur i) k := by
+  unfold rootStep
+  split
+  · split
+    · rename_i l hl
+      obtain ⟨g, rfl⟩ := findLeaf_isLeaf cur i _ hl
+      have hcn := h.nodup hn
+      have hnode := h.isNode
+      cases hc : cur with
+      | leaf n f => rw [hc] at hnode; simp at hnode
+      | node f ks =>
+        rw [hc] at hpost hcn
+        rw [rootStep_move_eq]
+        unfold rPost at hpost ⊢
+        rw [parentPath_eq_nil_iff, Bool.or_eq_true] at hpost ⊢
+        have hik : (i == k) = false := by simpa using fun e => hki e.symm
+        have hkid : hasKid k (removeLeafL i ks ++ [leaf i g]) = hasKid k ks := by
+          rw [hasKid_append_leaf, hasKid_removeLeafL k i hki, hik, Bool.or_false]
+        rw [hkid]
+        cases hk : hasKid k ks with
+        | true => exact Or.inl rfl
+        | false =>
+          right
+          rw [hk] at hpost
+          rcases hpost with hpost | hpost
+          · cases hpost
+          · unfold parentArity at hpost ⊢
+            cases hp : parentOfLeaf k (node f ks) with
+            | none => rw [hp] at hpost; simp at hpost
+            | some p =>
+              rw [hp] at hpost
+              simp only [beq_iff_eq] at hpost
+              obtain ⟨_, f', ks', rfl, hk'⟩ := parentOfLeaf_spec k _ p hp
+              obtain ⟨g', rfl⟩ := singleton_kid k ks' hk' hpost
+              have h1 := parentOfLeaf_removeLeaf k i hki (node f ks) hcn
+              rw [hp] at h1
+              have h2 := parentOfLeaf_appendToRoot k i g (fun e => hki e.symm) f (removeLeafL i ks)
+              rw [hasKid_removeLeafL k i hki, hk] at h2
+              simp only [Bool.false_eq_true, ↓reduceIte] at h2
+              have h3 : parentOfLeaf k (removeLeaf i (node f ks)) = parentOfLeafL k (removeLeafL i ks) := by
+                simp only [removeLeaf, parentOfLeaf]
+                rw [if_neg]
+                have := hasKid_removeLeafL k i hki ks
+                rw [hk] at this
+                simpa [hasKid] using this
+              simp only [appendToRoot] at h2
+              rw [h2, ← h3, h1]
+              simp [removeLeaf, removeLeafL, hki]
+    · exact hpost
+  · exact hpost
+
+theorem rootStep_post_self {t cur : Tree} (h : Inv t cur) (i : Nat)
+    (hi : i ∈ t.leafNums) : rPost (rootStep cur i) i := by
+  have hic := (h.mem i).2 hi
+  unfold rootStep
+  split
+  · split
+    · rename_i l hl
+      obtain ⟨g, rfl⟩ := findLeaf_isLeaf cur i _ hl
+      have hnode := h.isNode
+      cases hc : cur with
+      | leaf n f => rw [hc] at hnode; simp at hnode
+      | node f ks =>
+        rw [rootStep_move_eq]
+        unfold rPost
+        rw [parentPath_eq_nil_iff, hasKid_append_leaf]
+        simp
+    · rename_i hnone
+      obtain ⟨l, hl⟩ := findLeaf_some_of_mem cur i hic
+      rw [hnone] at hl; cases hl
+  · rename_i har
+    obtain ⟨p, hp⟩ := parentOfLeaf_isSome i cur h.isNode hic
+    obtain ⟨g, hg, _⟩ := parentOfLeaf_kid_mem_leaves i cur p hp
+    have : 1 ≤ p.kids.length := List.length_pos_of_mem hg
+    unfold rPost
+    simp only [parentArity, hp] at har ⊢
+    rw [Bool.or_eq_true]
+    right
+    simp only [beq_iff_eq]
+    omega
+
+theorem root_fold_post {t : Tree} (hn : t.leafNums.Nodup) : ∀ (todo : List Nat) (cur : Tree),
+    Inv t cur → todo.Nodup → (∀ i ∈ todo, i ∈ t.leafNums) →
+    (∀ k, k ∉ todo → rPost cur k → rPost (todo.foldl rootStep cur) k) ∧
+    (∀ i ∈ todo, rPost (todo.foldl rootStep cur) i)
+  | [], cur, _, _, _ => ⟨fun _ _ h => h, fun i hi => by simp at hi⟩
+  | i :: rest, cur, hinv, hnd, hc => by
+    rw [List.nodup_cons] at hnd
+    have hinv1 := rootStep_inv hinv hn i
+    obtain ⟨ih1, ih2⟩ := root_fold_post hn rest (rootStep cur i) hinv1 hnd.2
+      (fun j hj => hc j (List.mem_cons_of_mem _ hj))
+    simp only [List.foldl_cons]
+    refine ⟨?_, ?_⟩
+    · intro k hk hpost
+      simp only [List.mem_cons, not_or] at hk
+      exact ih1 k hk.2 (rootStep_post_preserved hinv hn i k hk.1 hpost)
+    · intro j hj
+      rcases List.mem_cons.1 hj with rfl | hj
+      · exact ih1 j hnd.1 (rootStep_post_self hinv j (hc j List.mem_cons_self))
+      · exact ih2 j hj
+
+theorem root_post_all (t : Tree) (h : WF t = true) :
+    ∀ i ∈ rootCands t, rPost (punctuationRoot t) i := by
+  obtain ⟨hnd, hc⟩ := rootCands_spec t h
+  exact (root_fold_post (WF_nodup t h) (rootCands t) t (Inv.refl t h) hnd hc).2
+
+/-! ### the uid parent map -/
+
+theorem parentMapL_eq (par : Option Nat) : ∀ ks : List Tree,
+    parentMapL par ks = ks.flatMap (parentMap par)
+  | [] => by simp [parentMapL]
+  | t :: ts => by simp [parentMapL, parentMapL_eq par ts]
+
+theorem parentMapL_append (par : Option Nat) (a b : List Tree) :
+    parentMapL par (a ++ b) = parentMapL par a ++ parentMapL par b := by
+  simp [parentMapL_eq]
+
+/-- own entry of a node in the parent map -/
+def ownEntry (par : Option Nat) (f : Fields) : List (Nat × Option Nat) :=
+  match f.uid with | some u => [(u, par)] | none => []
+
+theorem parentMap_leaf (par : Option Nat) (n : Nat) (f : Fields) :
+    parentMap par (leaf n f) = ownEntry par f := by
+  simp only [parentMap, ownEntry]
+
+theorem parentMap_node (par : Option Nat) (f : Fields) (ks : List Tree) :
+    parentMap par (node f ks) = ownEntry par f ++ parentMapL f.uid ks := by
+  simp only [parentMap, ownEntry]
+
+theorem ownEntry_filter_ne (par : Option Nat) (f : Fields) (u : Nat) (h : f.uid ≠ some u) :
+    (ownEntry par f).filter (fun e => e.1 == u) = [] := by
+  unfold ownEntry
+  cases hf : f.uid with
+  | none => rfl
+  | some v =>
+    have : ¬ v = u := fun e => h (by rw [hf, e])
+    simp [this]
+
+mutual
+theorem parentMap_removeLeaf (c u : Nat) : (par : Option Nat) → (t : Tree) →
+    (∀ l ∈ leaves t, l.num = c → l.fields.uid ≠ some u) →
+    (parentMap par (removeLeaf c t)).filter (fun e => e.1 == u) =
+      (parentMap par t).filter (fun e => e.1 == u)
+  | _, .leaf n f, _ => by simp [removeLeaf]
+  | par, .node f ks, h => by
+    simp only [removeLeaf, parentMap_node, List.filter_append]
+    rw [parentMapL_removeLeafL c u f.uid ks h]
+theorem parentMapL_removeLeafL (c u : Nat) : (par : Option Nat) → (ks : List Tree) →
+    (∀ l ∈ leavesL ks, l.num = c → l.fields.uid ≠ some u) →
+    (parentMapL par (removeLeafL c ks)).filter (fun e => e.1 == u) =
+      (parentMapL par ks).filter (fun e => e.1 == u)
+  | _, [], _ => by simp [removeLeafL]
+  | par, .leaf n f :: ts, h => by
+    by_cases hn : n = c
+    · subst hn
+      have : f.uid ≠ some u := h (leaf n f) (by simp [leavesL, leaves]) rfl
+      simp only [removeLeafL, ↓reduceIte, parentMapL, parentMap_leaf, List.filter_append,
+        ownEntry_filter_ne par f u this, List.nil_append]
+    · have ih := parentMapL_removeLeafL c u par ts
+        (fun l hl => h l (by simp only [leavesL, List.mem_append]; exact Or.inr hl))
+      simp only [removeLeafL, hn, ↓reduceIte, parentMapL, List.filter_append, ih]
+  | par, .node f ks :: ts, h => by
+    have ih1 := parentMap_removeLeaf c u par (node f ks)
+      (fun l hl => h l (by simp only [leavesL, List.mem_append]; exact Or.inl hl))
+    have ih2 := parentMapL_removeLeafL c u par ts
+      (fun l hl => h l (by simp only [leavesL, List.mem_append]; exact Or.inr hl))
+    simp only [removeLeaf] at ih1
+    simp only [removeLeafL, parentMapL, List.filter_append, ih1, ih2]
+end
+
+mutual
+theorem parentMap_appendBeside (j m u : Nat) (g : Fields) (hg : g.uid ≠ some u) :
+    (par : Option Nat) → (t : Tree) →
+    (parentMap par (appendBeside j (leaf m g) t)).filter (fun e => e.1 == u) =
+      (parentMap par t).filter (fun e => e.1 == u)
+  | _, .leaf n f => by simp [appendBeside]
+  | par, .node f ks => by
+    simp only [appendBeside]
+    split
+    · simp only [parentMap_node, parentMapL_append, List.filter_append, parentMapL, parentMap_leaf,
+        ownEntry_filter_ne f.uid g u hg, List.append_nil]
+    · simp only [parentMap_node, List.filter_append]
+      rw [parentMapL_appendBesideL j m u g hg f.uid ks]
+theorem parentMapL_appendBesideL (j m u : Nat) (g : Fields) (hg : g.uid ≠ some u) :
+    (par : Option Nat) → (ks : List Tree) →
+    (parentMapL par (appendBesideL j (leaf m g) ks)).filter (fun e => e.1 == u) =
+      (parentMapL par ks).filter (fun e => e.1 == u)
+  | _, [] => by simp [appendBesideL]
+  | par, t :: ts => by
+    simp only [appendBesideL, parentMapL, List.filter_append,
+      parentMap_appendBeside j m u g hg par t, parentMapL_appendBesideL j m u g hg par ts]
+end
+
+theorem parentMap_appendToRoot (m u : Nat) (g : Fields) (hg : g.uid ≠ some u) (par : Option Nat)
+    (t : Tree) :
+    (parentMap par (appendToRoot t (leaf m g))).filter (fun e => e.1 == u) =
+      (parentMap par t).filter (fun e => e.1 == u) := by
+  cases t with
+  | leaf n f => simp [appendToRoot]
+  | node f ks =>
+    simp only [appendToRoot, parentMap_node, parentMapL_append, List.filter_append, parentMapL,
+      parentMap_leaf, ownEntry_filter_ne f.uid g u hg, List.append_nil]
+
+theorem parentOfUid_eq_of_filter (a b : Tree) (u : Nat)
+    (h : (parentMap none a).filter (fun e => e.1 == u) = (parentMap none b).filter (fun e => e.1 == u)) :
+    parentOfUid a u = parentOfUid b u := by
+  unfold parentOfUid
+  rw [← List.head?_filter, ← List.head?_filter, h]
+
+/-- moving a token does not change the parent of any other node -/
+theorem moveLeafBeside_parentOfUid (cur : Tree) (i j u : Nat) (hn : cur.leafNums.Nodup)
+    (h : ∀ l, cur.findLeaf i = some l → l.fields.uid ≠ some u) :
+    parentOfUid (moveLeafBeside cur i j) u = parentOfUid cur u := by
+  unfold moveLeafBeside
+  split
+  · rename_i l hl
+    obtain ⟨g, rfl⟩ := findLeaf_isLeaf cur i l hl
+    have hg := h _ hl
+    simp only [fields_leaf] at hg
+    refine parentOfUid_eq_of_filter _ _ u ?_
+    rw [parentMap_appendBeside j i u g hg none, parentMap_removeLeaf i u none cur]
+    intro l' hl' hnum
+    have := findLeaf_of_mem_nodup cur l' hn hl'
+    rw [hnum, hl] at this
+    cases this
+    exact hg
+  · rfl
+
+theorem rootMove_parentOfUid (cur : Tree) (i u : Nat) (hn : cur.leafNums.Nodup) (g : Fields)
+    (hl : cur.findLeaf i = some (leaf i g)) (hg : g.uid ≠ some u) :
+    parentOfUid (appendToRoot (removeLeaf i cur) (leaf i g)) u = parentOfUid cur u := by
+  refine parentOfUid_eq_of_filter _ _ u ?_
+  rw [parentMap_appendToRoot i u g hg none, parentMap_removeLeaf i u none cur]
+  intro l' hl' hnum
+  have := findLeaf_of_mem_nodup cur l' hn hl'
+  rw [hnum, hl] at this
+  cases this
+  exact hg
+
+mutual
+theorem parentMap_keys (par : Option Nat) : (t : Tree) →
+    (parentMap par t).map (·.1) = (subtrees t).filterMap (·.fields.uid)
+  | .leaf n f => by
+    simp only [parentMap_leaf, ownEntry, subtrees]
+    cases h : f.uid <;> simp [h]
+  | .node f ks => by
+    simp only [parentMap_node, ownEntry, subtrees, List.map_append, parentMapL_keys f.uid ks]
+    cases h : f.uid <;> simp [h]
+theorem parentMapL_keys (par : Option Nat) : (ks : List Tree) →
+    (parentMapL par ks).map (·.1) = (subtreesL ks).filterMap (·.fields.uid)
+  | [] => by simp [parentMapL, subtreesL]
+  | t :: ts => by
+    simp only [parentMapL, subtreesL, List.map_append, List.filterMap_append, parentMap_keys par t,
+      parentMapL_keys par ts]
+end
+
+theorem leaves_subset_subtrees (t : Tree) : ∀ l ∈ leaves t, l ∈ subtrees t := by
+  induction t using tree_ind with
+  | hl n f => intro l hl; simpa [leaves, subtrees] using hl
+  | hn f ks ih =>
+    intro l hl
+    rw [leaves_node, List.mem_flatMap] at hl
+    obtain ⟨k, hk, hl⟩ := hl
+    exact (mem_subtrees_node f ks l).2 (Or.inr ⟨k, hk, ih k hk l hl⟩)
+
+theorem eq_of_filterMap_nodup {α β} (f : α → Option β) : ∀ (l : List α), (l.filterMap f).Nodup →
+    ∀ a ∈ l, ∀ b ∈ l, ∀ u, f a = some u → f b = some u → a = b
+  | [], _, a, ha, _, _, _, _, _ => by simp at ha
+  | y :: ys, hn, a, ha, b, hb, u, hfa, hfb => by
+    have hmem : ∀ z ∈ ys, f z = some u → u ∈ ys.filterMap f := fun z hz hfz =>
+      List.mem_filterMap.2 ⟨z, hz, hfz⟩
+    rcases List.mem_cons.1 ha with rfl | ha' <;> rcases List.mem_cons.1 hb with rfl | hb'
+    · rfl
+    · rw [List.filterMap_cons, hfa, List.nodup_cons] at hn
+      exact absurd (hmem b hb' hfb) hn.1
+    · rw [List.filterMap_cons, hfb, List.nodup_cons] at hn
+      exact absurd (hmem a ha' hfa) hn.1
+    · have hn' : (ys.filterMap f).Nodup := by
+        rw [List.filterMap_cons] at hn
+        cases hfy : f y with
+        | none => rw [hfy] at hn; exact hn
+        | some v => rw [hfy] at hn; exact (List.nodup_cons.1 hn).2
+      exact eq_of_filterMap_nodup f ys hn' a ha' b hb' u hfa hfb
+
+theorem find?_of_nodup_fst {α} (l : List (Nat × α)) (hn : (l.map (·.1)).Nodup) (u : Nat) (p : α)
+    (h : (u, p) ∈ l) : l.find? (fun e => e.1 == u) = some (u, p) := by
+  have := find?_of_nodup_key (fun (e : Nat × α) => e.1) u l (u, p) hn h rfl
+  exact this
+
+/-- generic closing argument: nodes that are not `free` tokens keep their parent when the
+    parent of every uid not carried by a `free` token is unchanged -/
+theorem parentsKept_of_inv (t r : Tree) (free : Tree → Bool) (hu : uidsOK t = true)
+    (hfree : ∀ s, free s = true → s.isLeaf = true)
+    (hinv : ∀ u, (∀ l ∈ t.leaves, free l = true → l.fields.uid ≠ some u) →
+      parentOfUid r u = parentOfUid t u)
+    (hfl : ∀ s, s.isLeaf = true → s ∈ subtrees t → s ∈ leaves t) :
+    parentsKept t r free = true := by
+  unfold parentsKept
+  rw [List.all_eq_true]
+  rintro ⟨u, p⟩ hup
+  simp only
+  cases hs : findUid t u with
+  | none => rfl
+  | some s =>
+    simp only [Bool.or_eq_true, beq_iff_eq]
+    cases hf : free s with
+    | true => exact Or.inl rfl
+    | false =>
+      right
+      simp only [uidsOK, Bool.and_eq_true] at hu
+      have hnd : ((parentMap none t).map (·.1)).Nodup := by
+        rw [parentMap_keys]; exact (nodupB_iff _).1 hu.2
+      have hnd' : ((subtrees t).filterMap (·.fields.uid)).Nodup := (nodupB_iff _).1 hu.2
+      have hs1 : s ∈ subtrees t := List.mem_of_find?_eq_some hs
+      have hs2 : s.fields.uid = some u := by
+        have := List.find?_some hs
+        simpa using this
+      rw [hinv u]
+      · unfold parentOfUid
+        rw [find?_of_nodup_fst _ hnd u p hup]
+        rfl
+      · intro l hl hfl' huid
+        have := eq_of_filterMap_nodup (·.fields.uid) _ hnd' s hs1 l (leaves_subset_subtrees t l hl) u
+          hs2 huid
+        rw [this, hfl'] at hf
+        cases hf
 
 end TT.Lemmas.Punct
